@@ -99,6 +99,16 @@ pub struct Scn {
     /// privileges.drop_privileges: the socket workers rendezvous at a barrier after binding (the chroot itself is not simulated)
     #[serde(default)]
     pub drop_priv: bool,
+    /// metrics.run_prometheus_endpoint: the metrics worker (a simulated exporter thread, rt::metrics) is spawned and
+    /// registered by the real run(); the trackers' metrics code (gauges, counters, torrent-count timer) runs for real
+    #[serde(default)]
+    pub prometheus: bool,
+    #[serde(default)]
+    pub torrent_count_update_interval: u64,
+    /// accept attempts (1-based, counted over all listeners, only those that find a connection waiting) that fail once
+    /// with ECONNABORTED; the waiting connection stays in the backlog and must be accepted by the next attempt
+    #[serde(default)]
+    pub accept_faults: Vec<u64>,
 }
 
 /// 20-byte ids as the reference client sends them: one character per byte (U+0000-U+00FF)
@@ -199,6 +209,10 @@ fn list_file(list: &[u8], bad: bool) -> String {
 fn build_config(scn: &Scn, dir: &std::path::Path) -> Config {
     let mut c = Config::default();
     c.privileges.drop_privileges = scn.drop_priv;
+    c.metrics.run_prometheus_endpoint = scn.prometheus;
+    if scn.torrent_count_update_interval > 0 {
+        c.metrics.torrent_count_update_interval = scn.torrent_count_update_interval;
+    }
     c.socket_workers = scn.socket_workers.max(1) as usize;
     c.swarm_workers = scn.swarm_workers.max(1) as usize;
     match scn.layout % 3 {
@@ -596,6 +610,7 @@ fn sim_root(scn: Arc<Scn>, col: Arc<Mutex<Collected>>) {
         plan.stall_at.push(("tracker-run".into(), 1 + scn.sched_seed % 10, 3_000_000));
     }
     fault::set_plan(plan);
+    aquatic_verif_rt::net::tcp::set_accept_faults(scn.accept_faults.iter().copied().collect());
     col.lock().unwrap().logs = vec![Vec::new(); scn.conns.len()];
     let col2 = col.clone();
     let _run = thread::spawn_named("tracker-run", move || {
@@ -682,6 +697,11 @@ impl Harness for WsSys {
 
     fn generate(seed: u64, tier: Tier, prop: &str) -> Scn {
         let mut r = Prng::stream(seed, "scenario");
+        // knobs added later draw from a stream of their own so that older seeds keep their scenarios
+        let mut r2 = Prng::stream(seed, "scenario-metrics");
+        let prometheus = r2.chance(if prop == "C19" { 500 } else { 350 });
+        let torrent_count_update_interval = *r2.pick(&[1u64, 2, 10]);
+        let accept_faults: Vec<u64> = if prop != "C19" && r2.chance(150) { (0..r2.range(1, 3)).map(|_| r2.range(1, 8)).collect() } else { Vec::new() };
         let socket_workers = r.range(1, 3) as u8;
         let swarm_workers = r.range(1, 3) as u8;
         let layout = *r.pick(&[0u8, 0, 1, 2, 2]);
@@ -787,10 +807,14 @@ impl Harness for WsSys {
             let mut threads: Vec<String> = (1..=socket_workers).map(|i| format!("socket-{:02}", i)).collect();
             threads.extend((1..=swarm_workers).map(|i| format!("swarm-{:02}", i)));
             threads.push("signals".into());
+            if prometheus {
+                threads.push("prometheus".into());
+            }
             if r.chance(850) {
                 let th = r.pick(&threads).clone();
                 let f = match r.below(10) {
-                    0 if th.starts_with("socket") => PF::BindFail { thread: th },
+                    0 if th.starts_with("socket") || th == "prometheus" => PF::BindFail { thread: th },
+                    1 if th == "prometheus" => PF::EndLoop { thread: th, n: *r.pick(&[1u64, 2, 3, 5]) },
                     // (a glommio accept stream never ends by itself, so there is no "loop ends" death for socket workers)
                     2 if th == "signals" => PF::SignalsClose { ms: r.range(0, 15000) },
                     3 => PF::SpawnFail { thread: th },
@@ -811,7 +835,7 @@ impl Harness for WsSys {
         if !reloads.is_empty() {
             // on torrents whose permission changes with a reload connections only use their own peer id
             // (whether the tracker recorded an earlier announce is then irrelevant to what it must answer)
-            let tmp = Scn { socket_workers, swarm_workers, layout, max_offers: 0, max_scrape_torrents: 1, max_peer_age: 0, max_offer_age: 0, cleaning_interval: 0, conn_cleaning_interval: 0, max_connection_idle: 0, access_mode, access_list: access_list.clone(), sched_strategy: 0, sched_seed: 0, entropy_seed: 0, yield_permille: 0, duration_ms, conns: vec![], faults: vec![], reloads: reloads.clone(), early: false, probe: None, drop_priv: false };
+            let tmp = Scn { socket_workers, swarm_workers, layout, max_offers: 0, max_scrape_torrents: 1, max_peer_age: 0, max_offer_age: 0, cleaning_interval: 0, conn_cleaning_interval: 0, max_connection_idle: 0, access_mode, access_list: access_list.clone(), sched_strategy: 0, sched_seed: 0, entropy_seed: 0, yield_permille: 0, duration_ms, conns: vec![], faults: vec![], reloads: reloads.clone(), early: false, probe: None, drop_priv: false, prometheus: false, torrent_count_update_interval: 0, accept_faults: vec![] };
             let d = dynamic_torrents(&tmp);
             for c in conns.iter_mut() {
                 for op in c.script.iter_mut() {
@@ -849,11 +873,15 @@ impl Harness for WsSys {
             early: !c19 && r.chance(if prop == "C11" { 300 } else { 100 }),
             probe,
             drop_priv: r.chance(300),
+            prometheus,
+            torrent_count_update_interval,
+            accept_faults,
         }
     }
 
     fn execute(scn: &Scn, prop: &str, stats: &mut Stats) -> Outcome {
         aquatic_verif_rt::reset_all(scn.entropy_seed);
+        crate::recorder::reset();
         foldhash::verif_reset_seed_counter();
         glommio::sim_reset();
         let col = Arc::new(Mutex::new(Collected::default()));
@@ -937,7 +965,7 @@ impl Harness for WsSys {
                             death = Some((ms * 1_000_000, "signals (iterator closed)".into()));
                         }
                     }
-                    PF::SpawnFail { thread } => death = Some((0, format!("{} (spawn failed)", thread))),
+                    PF::SpawnFail { thread } if thread != "prometheus" || scn.prometheus => death = Some((0, format!("{} (spawn failed)", thread))),
                     _ => {}
                 }
             }
@@ -955,6 +983,9 @@ impl Harness for WsSys {
                 }
                 (Some((d, who)), Some((t, r))) => {
                     stats.probe("worker-death-observed");
+                if who.starts_with("prometheus") {
+                    stats.probe("metrics-worker-death-observed");
+                }
                     if r.is_ok() {
                         violations.push(Violation::new("C19", "dead-worker-ends-run", "run-returned-ok", format!("{} died at {} ms and run() returned Ok(())", who, d / 1_000_000)));
                     } else if *t > d + 10_000_000_000 {
